@@ -46,7 +46,7 @@ STRATEGIES = ["sweep", "sweep", "double", "random", "raw"]
 
 
 def plan(tier):
-    n = 100 if tier == "quick" else 2000
+    n = 100 if tier == "quick" else 300
     return {"cases": n, "params": {"sweep_stride": 6 if tier == "quick" else 1, "random": 20 if tier == "quick" else 120,
                                   "raw": 60 if tier == "quick" else 600},
             "timeout_s": 1800 if tier == "quick" else 14000,
